@@ -13,6 +13,7 @@ def fails : Stmt → Bool
   | .partialFail _ => true
   | .startFail _ _ => true
   | .autoRollback => true
+  | .timeout => true
   | _ => false
 
 def isCtl : Stmt → Bool
